@@ -331,6 +331,13 @@ func c11Run(k *fw.K, ci int, plan c11Plan, viaMobile bool, label string) bool {
 				// status are ignored by the command helpers and change nothing)
 				sameSW := len(f) >= 2 && len(resp) >= 2 && f[len(f)-2] == resp[len(resp)-2] && f[len(f)-1] == resp[len(resp)-1]
 				benign := sameSW && len(resp) == 2
+				if sameSW && !benign && len(f) > len(resp) && bytesEq(f[:len(resp)-2], resp[:len(resp)-2]) && c11OneCompleteTLV(resp[:len(resp)-2]) {
+					// the genuine data object arrives intact and complete, followed by surplus
+					// octets, under the genuine status: the step consumes exactly the object it
+					// would have consumed (same reading as for status-only responses)
+					benign = true
+					k.Count("surplus_octets_after_a_complete_data_object_not_counted_as_altered")
+				}
 				if !bytesEq(f, resp) && !benign && len(card.Events) > 0 {
 					ev := card.Events[len(card.Events)-1]
 					if ev.Protected {
@@ -787,4 +794,35 @@ func runC11(c *fw.Ctx) {
 			k.Count("mobile_runs")
 		}
 	})
+}
+
+// c11OneCompleteTLV reports whether b is exactly one BER data object with a definite length.
+func c11OneCompleteTLV(b []byte) bool {
+	if len(b) < 2 {
+		return false
+	}
+	i := 1
+	if b[0]&0x1F == 0x1F {
+		for i < len(b) && b[i]&0x80 != 0 {
+			i++
+		}
+		i++
+	}
+	if i >= len(b) {
+		return false
+	}
+	l := int(b[i])
+	i++
+	if l&0x80 != 0 {
+		n := l & 0x7F
+		if n == 0 || n > 3 || i+n > len(b) {
+			return false
+		}
+		l = 0
+		for j := 0; j < n; j++ {
+			l = l<<8 | int(b[i+j])
+		}
+		i += n
+	}
+	return i+l == len(b)
 }
